@@ -226,6 +226,28 @@ fn realise(w: &mut World, n: &Node, a: &ABlock) -> Result<BlockView, String> {
                 cb.witness(packed::CellbaseWitness::new_builder().lock(l).message(Bytes::from(nonce.to_le_bytes().to_vec()).pack()).build().as_bytes().pack())
             }
             "nowitness" => cb,
+            // a CellbaseWitness table with ONE APPENDED FIELD: accepted by from_compatible_slice, refused by the strict
+            // decoder every consumer (cellbase verifier, reward calculator, block assembler) uses
+            "witnessextra" => {
+                let w = packed::CellbaseWitness::new_builder().lock(lock()).message(Bytes::from(nonce.to_le_bytes().to_vec()).pack()).build();
+                let raw = w.as_slice();
+                let first = u32::from_le_bytes(raw[4..8].try_into().unwrap()) as usize;
+                let nf = first / 4 - 1;
+                let mut offs: Vec<usize> = (0..nf).map(|i| u32::from_le_bytes(raw[4 + 4 * i..8 + 4 * i].try_into().unwrap()) as usize).collect();
+                offs.push(raw.len());
+                let extra: &[u8] = &[0, 0, 0, 0]; // an empty Bytes
+                let mut out = vec![];
+                let total = raw.len() + 4 + extra.len();
+                out.extend((total as u32).to_le_bytes());
+                for i in 0..nf {
+                    out.extend(((offs[i] + 4) as u32).to_le_bytes());
+                }
+                out.extend(((raw.len() + 4) as u32).to_le_bytes());
+                out.extend(&raw[first..]);
+                out.extend(extra);
+                assert!(packed::CellbaseWitnessReader::from_compatible_slice(&out).is_ok() && packed::CellbaseWitnessReader::from_slice(&out).is_err());
+                cb.witness(Bytes::from(out).pack())
+            }
             _ => cb.witness(witness_of(pad)),
         };
         let prescribed = CellOutput::new_builder().capacity(reward.total).lock(target_lock.clone()).build();
